@@ -216,7 +216,12 @@ func (f *Frame) run() {
 				for _, in := range b.Instrs {
 					if st, ok := in.(*ssa.Store); ok {
 						if fa, ok := f.Eval(st.Addr).(avFieldAddr); ok {
-							if _, fixed := fa.o.Fields[fa.path]; fixed && !fa.o.killed[fa.path] {
+							if cur, fixed := fa.o.Fields[fa.path]; fixed && !fa.o.killed[fa.path] {
+								// a store of the value the cell already fixes
+								// (default filling of a configured field) is a no-op
+								if nv := f.Eval(st.Val); nv != nil && cur != nil && nv.key() == cur.key() {
+									continue
+								}
 								fa.o.killed[fa.path] = true
 								changed = true
 							}
